@@ -601,8 +601,8 @@ def refine_droplet(
     """
     if not isinstance(phase_field, ScalarField):
         raise TypeError("`phase_field` must be ScalarField")
-    if least_squares_params is None:
-        least_squares_params = {}
+    # (use a copy of the parameters, so the dictionary of the caller is not modified)
+    least_squares_params = dict(least_squares_params) if least_squares_params else {}
     if tolerance is not None:
         for key in ["ftol", "xtol", "gtol"]:
             least_squares_params.setdefault(key, tolerance)
